@@ -88,6 +88,9 @@ def box_selectors(draw, nb):
 def cases(draw, tier="quick"):
     spec = draw(plotgen.plot_specs(max_cells=3000 if tier == "quick" else 10000, max_fields=7,
                                    payload_kinds=("special", "coded", "random")))
+    if draw(st.integers(0, 2 ** 16)) % 4 == 1:
+        # index space not starting at 0 (negative low indices are legal in AMReX, e.g. a domain centred on the origin)
+        spec["index_shift"] = [draw(st.sampled_from([-1, -2, 0, 1, -3])) for _ in range(spec["mesh"]["ndims"])]
     plot = plotgen.Plot(spec)
     nf = plot.nf
     limit = draw(st.one_of(st.none(), st.integers(0, plot.nlev - 1)))
@@ -183,10 +186,18 @@ def check_case(case, ctx):
     L = plot.nlev - 1 if limit is None else limit
     labs = plot.labels()
     ctx.label(*labs)
+    if any(plot.shift0):
+        ctx.label("shifted-index-space" + (" (negative)" if min(plot.shift0) < 0 else ""))
     noncubic_box = any(len(set(plot.box_shape(l, b))) > 1 for l in range(plot.nlev) for b in range(len(plot.levels[l]["boxes"])))
+    shifted = any(plot.shift0)
     try:
         pck = qcall(PlotfileCooker, "src", limit_level=limit)
     except Exception as e:
+        if shifted:
+            # an index space that does not start at 0 is legal AMReX but outside what the reader's metadata supports:
+            # refusing it is fine, silently returning other data is not (checked below when it does open)
+            ctx.label("shifted-index-space refused at open")
+            return []
         return [f"opening a well-formed plotfile raised {type(e).__name__}: {e}"]
     v = []
     offset_sel = False
@@ -208,7 +219,7 @@ def check_case(case, ctx):
         except IndexError:
             exp_b = None
         honourable = exp_f is not None and exp_b is not None and lv_ok
-        must = honourable and fmust and bmust and lv_must
+        must = honourable and fmust and bmust and lv_must and not shifted
         ctx.label("q:must" if must else ("q:either" if honourable else "q:must-raise"))
         ctx.label("f:" + q["f"]["k"], "b:" + q["b"]["k"])
         if exp_f is not None and np.size(exp_f) and int(np.min(exp_f)) > 0:
